@@ -111,7 +111,12 @@ func (t *Teamserver) LinkRemove(ParentAgent *agent.Agent, LinkAgent *agent.Agent
 
 	// a removed link is no longer the agent's way up
 	if LinkAgent.Pivots.Parent == ParentAgent {
+		// what is queued for it from now on waits in its own queue for the next link
+		LinkAgent.JobMtx.Lock()
+		LinkAgent.Pivots.Unlinked = true
+		LinkAgent.Pivots.QueuedAtUnlink = len(LinkAgent.JobQueue)
 		LinkAgent.Pivots.Parent = nil
+		LinkAgent.JobMtx.Unlock()
 	}
 
 	if UpdateLinks {
